@@ -270,10 +270,9 @@ func init() {
 			}
 			scheds := c07Scheds(c.Tier)
 			mc.DriveSchedules(c, func(i int, sc *mc.Scenario) mc.SchedPlan {
-				p := mc.SchedPlan{Class: "schedules/" + scheds[i].engine, Bounds: []int{0, 1}}
+				p := mc.SchedPlan{Class: "schedules/" + scheds[i].engine, Bounds: []int{0}, Shard: true}
 				if c.Tier == "thorough" {
-					p.Bounds = []int{0, 1, 2}
-					p.Shard = true
+					p.Bounds = []int{0, 1}
 				}
 				return p
 			})
